@@ -324,13 +324,26 @@ var methodPool = []string{"/pkg.Svc/Get", "/pkg.Svc/GetAll", "/pkg.Svc/Put", "/p
 	"/p.q/r", "/zz.None/Nothing", "/pkg.Svc/Get/extra"}
 
 // genTable writes route commands over the given target URLs and parses them with the real parser.
-func genTable(r *rand.Rand, urls []string, maxRoutes int) (route.Table, string) {
+func genTable(r *rand.Rand, urls []string, maxRoutes int, catchAll bool) (route.Table, string) {
 	var sb strings.Builder
 	n := r.Intn(maxRoutes + 1)
-	if r.Intn(8) == 0 {
+	if catchAll {
+		n = 2 + r.Intn(maxRoutes-1)
+	}
+	if (!catchAll && r.Intn(10) == 0) || (catchAll && r.Intn(25) == 0) {
 		n = 0
 	}
 	used := map[string]bool{}
+	if catchAll && n > 0 && r.Intn(4) > 0 {
+		// a catch-all, host-less or under one host, so that most calls of a session are routed
+		h := ""
+		if r.Intn(3) == 0 {
+			h = hostPool[1+r.Intn(len(hostPool)-1)]
+		}
+		u := urls[r.Intn(len(urls))]
+		used[h+"/ "+u] = true
+		fmt.Fprintf(&sb, "route add svc9 %s/ %s opts \"proto=grpc\"\n", h, u)
+	}
 	for i := 0; i < n; i++ {
 		h := hostPool[r.Intn(len(hostPool))]
 		if r.Intn(3) == 0 {
@@ -474,11 +487,12 @@ func genProto(r *rand.Rand, depth int) []byte {
 		case 0:
 			b = protowire.AppendTag(b, num, protowire.VarintType)
 			v := r.Uint64() >> uint(r.Intn(64))
-			if r.Intn(6) == 0 {
-				nb := 0
-				for x := v; x >= 0x80; x >>= 7 {
-					nb++
-				}
+			nb := 0
+			for x := v; x >= 0x80; x >>= 7 {
+				nb++
+			}
+			if r.Intn(6) == 0 && nb < 9 {
+				// padded with continuation bytes up to the 10 bytes a varint may take
 				b = appendVarintOverlong(b, v, 1+r.Intn(9-nb))
 			} else {
 				b = protowire.AppendVarint(b, v)
@@ -587,11 +601,20 @@ func main() {
 		}
 	}()
 
+	phase := time.Now()
+	lap := func(name string) {
+		run.Notes["seconds_"+name] = time.Since(phase).Seconds()
+		phase = time.Now()
+	}
 	lookupCases(run, r, burls)
+	lap("lookup")
 	poolCases(run, r, backends)
+	lap("pool")
 	raceProbe(run, backends)
 	waitQuiet(backends, 3*time.Second)
+	lap("race")
 	session(run, r, backends)
+	lap("session")
 
 	run.Finish(preamble, run.Scale(40, 120))
 	if len(run.Viol) > 0 {
@@ -617,7 +640,7 @@ func lookupCases(run *vh.Run, r *rand.Rand, burls []string) {
 	for i := 0; i < n; i++ {
 		noglob := r.Intn(4) == 0
 		cfg := newCfg(0, noglob)
-		t, txt := genTable(r, burls, 7)
+		t, txt := genTable(r, burls, 7, false)
 		route.SetTable(t)
 		g := proxy.GrpcProxyInterceptor{Config: cfg, GlobCache: route.NewGlobCache(cfg.GlobCacheSize)}
 		for j := 0; j < 3; j++ {
@@ -679,11 +702,18 @@ func closedConn() *grpc.ClientConn {
 // loop is started; the body holds the pool's lock from start to end, so once a snapshot
 // (read lock) no longer shows the sentinel the whole body has run.
 func tick(p *proxy.VerifC16Pool) bool {
-	p.Set(&route.Target{URL: sentinelURL}, closedConn())
+	sentinel := closedConn()
+	p.Set(&route.Target{URL: sentinelURL}, sentinel)
 	p.Tick()
 	deadline := time.Now().Add(3 * time.Second)
 	for time.Now().Before(deadline) {
-		if _, there := p.Snapshot()[sentinelURL.String()]; !there {
+		there := false
+		for _, c := range p.Snapshot() {
+			if c == sentinel {
+				there = true
+			}
+		}
+		if !there {
 			return true
 		}
 		time.Sleep(50 * time.Microsecond)
@@ -817,10 +847,20 @@ func poolCases(run *vh.Run, r *rand.Rand, backends []*backend) {
 	}
 }
 
+// once a close that should have happened did not happen within the full wait, later
+// waits are short: the observation is already different from the model's
+var lateCloses int32
+
 func waitShutdown(c *grpc.ClientConn, d time.Duration) {
+	if atomic.LoadInt32(&lateCloses) > 0 {
+		d = 30 * time.Millisecond
+	}
 	deadline := time.Now().Add(d)
 	for c.GetState() != connectivity.Shutdown && time.Now().Before(deadline) {
 		time.Sleep(100 * time.Microsecond)
+	}
+	if c.GetState() != connectivity.Shutdown {
+		atomic.AddInt32(&lateCloses, 1)
 	}
 }
 
@@ -847,17 +887,24 @@ func raceProbe(run *vh.Run, backends []*backend) {
 		}
 		close(start)
 		wg.Wait()
-		pooled := pool.Snapshot()[pu.String()]
 		distinct := map[*grpc.ClientConn]bool{}
 		for _, c := range got {
 			if c != nil {
 				distinct[c] = true
 			}
 		}
+		var pooled *grpc.ClientConn
+		for _, c := range pool.Snapshot() {
+			if distinct[c] {
+				pooled = c
+			}
+		}
 		// an empty table and a tick: the pooled connection is closed, the others are not
 		route.SetTable(route.Table{})
 		tick(pool)
-		waitShutdown(pooled, 2*time.Second)
+		if pooled != nil {
+			waitShutdown(pooled, 2*time.Second)
+		}
 		time.Sleep(5 * time.Millisecond)
 		for c := range distinct {
 			if c != pooled && c.GetState() != connectivity.Shutdown {
@@ -1004,7 +1051,7 @@ func session(run *vh.Run, r *rand.Rand, backends []*backend) {
 	for _, b := range backends {
 		byAddr[b.addr] = b
 	}
-	t, ttxt := genTable(r, burls, 6)
+	t, ttxt := genTable(r, burls, 6, true)
 	route.SetTable(t)
 
 	// --- main.go:newGrpcProxy, replicated ---
@@ -1072,7 +1119,7 @@ func session(run *vh.Run, r *rand.Rand, backends []*backend) {
 
 	const period = 5 * time.Second
 	ticks := 0 // real cleanup ticks after the one at creation
-	wantTicks := run.Scale(2, 6)
+	wantTicks := run.Scale(1, 6)
 	nCalls := run.Scale(420, 2400)
 	perPhase := nCalls / (wantTicks + 1)
 	var steps, obs []string
@@ -1121,8 +1168,8 @@ func session(run *vh.Run, r *rand.Rand, backends []*backend) {
 			awaitTick()
 			continue
 		}
-		if r.Intn(12) == 0 {
-			curTbl, curTxt = genTable(r, burls, 6)
+		if r.Intn(8) == 0 {
+			curTbl, curTxt = genTable(r, burls, 6, true)
 			route.SetTable(curTbl)
 			steps = append(steps, vh.App("SSetTable", strsCoq(tableURLs(curTbl))))
 			obs = append(obs, observe())
@@ -1132,6 +1179,10 @@ func session(run *vh.Run, r *rand.Rand, backends []*backend) {
 		calls++
 		kind := r.Intn(6)
 		method := methodPool[r.Intn(len(methodPool))]
+		if r.Intn(16) == 0 {
+			// still "/service/method" for grpc-go; net/url decodes, splits or rejects them
+			method = []string{"/pkg.Svc/G%65t", "/pkg.Svc/Get%zz", "/pkg.Svc/Get?x=/other.Api/", "/%6fther.Api/X", "/pkg.Svc/Get#frag"}[r.Intn(5)]
+		}
 		md := genMD(r, mdKeys, 4)
 		addDstHost(r, md)
 		sc := &script{hdr: genMD(r, mdKeys[:9], 3), trl: genMD(r, mdKeys[:9], 3), earlyHdr: r.Intn(2) == 0}
